@@ -287,7 +287,8 @@ def negate_on_texts(F, rep, rt_keeps):
     beyond): (kind) the result has the kind the interpreter's negation gives - the kind of the operand - or the folder declines (None: the
     run-time negation is used); the one exception is the bigint text 2147483648, whose negation spells the int literal `-2147483648` (a
     literal is lexed without its sign); an int whose negation is not an int (`-(-2147483648)`) must be declined, not labelled int;
-    (text) the result is the text of the negated number: `--5` or `make_int -9999999999` is refused by the interpreter."""
+    (text) the result is the text of the negated number: `--5` or `make_int -9999999999` is refused by the interpreter, and an integer zero
+    stays `0` (the folder's shifts read their amount as an unsigned text: `1 << -0` must fold like `1 << -z` with z = 0 runs)."""
     import absint
     from absint import Interp, Variant, Str
     N = "compiler::ast::number::Number"
@@ -327,15 +328,29 @@ def negate_on_texts(F, rep, rt_keeps):
             pre = y.s if isinstance(y, Str) else chr(y.v)
             return absint.mkbool(x.s.startswith(pre))
         return NotImplemented
+    def trim_start_matches(it, p, fid, fn, t, args):
+        x, y = deref(it, p, args[0]), deref(it, p, args[1])
+        if isinstance(x, Str) and isinstance(y, (Str, absint.Int)):
+            pre = y.s if isinstance(y, Str) else chr(y.v)
+            r = x.s
+            while pre and r.startswith(pre):
+                r = r[len(pre):]
+            return Str(r)
+        return NotImplemented
+
+    def is_empty(it, p, fid, fn, t, args):
+        x = deref(it, p, args[0])
+        return absint.mkbool(x.s == "") if isinstance(x, Str) else NotImplemented
     models = dict(absint.DEFAULT_MODELS)
-    models.update({"core::ops::arith::Add::add": s_add, "alloc::borrow::ToOwned::to_owned": s_id, "alloc::string::ToString::to_string": s_id,
+    models.update({"core::str::<impl str>::trim_start_matches": trim_start_matches, "core::str::<impl str>::is_empty": is_empty,
+                   "core::ops::arith::Add::add": s_add, "alloc::borrow::ToOwned::to_owned": s_id, "alloc::string::ToString::to_string": s_id,
                    "core::clone::Clone::clone": s_id, "core::convert::From::from": s_id, "core::str::<impl str>::strip_prefix": strip_prefix,
                    "core::str::<impl str>::starts_with": starts_with, "alloc::string::String::as_str": s_id, "core::ops::deref::Deref::deref": s_id})
     CASES = {
         "Integer": [("5", "Integer", "-5"), ("-5", "Integer", "5"), ("2147483647", "Integer", "-2147483647"), ("-2147483647", "Integer", "2147483647"),
-                    ("-2147483648", None, None), ("0", "Integer", "-0")],
+                    ("-2147483648", None, None), ("0", "Integer", "0")],
         "BigInt": [("5", "BigInt", "-5"), ("-5", "BigInt", "5"), ("9999999999", "BigInt", "-9999999999"), ("-9999999999", "BigInt", "9999999999"),
-                   ("2147483649", "BigInt", "-2147483649"), ("2147483648", "Integer", "-2147483648")],
+                   ("2147483649", "BigInt", "-2147483649"), ("2147483648", "Integer", "-2147483648"), ("0", "BigInt", "0")],
         "Float": [("5.0", "Float", "-5.0"), ("-5.0", "Float", "5.0")],
         "Byte": [("0b101", None, None)],
     }
@@ -371,7 +386,7 @@ def negate_on_texts(F, rep, rt_keeps):
                 continue
             if gk != wkind:
                 bad_kind.append("-(%s `%s`) folds to a %s, the interpreter gives a %s" % (kind.lower(), txt, gk.lower(), wkind.lower()))
-            if gt != wtxt and not (gt == wtxt.replace("-0", "0")):
+            if gt != wtxt:
                 bad_text.append("-(%s `%s`) folds to the text `%s`, expected `%s`" % (kind.lower(), txt, gt, wtxt))
         rep.ob("C06.negate", "-<%s literal> folds to the kind the interpreter produces, or is left to it" % kind.lower(), "violated" if bad_kind else "ok",
                "; ".join(bad_kind[:4]), g.span, fn=g.path, key="C06.negate|%s" % kind.lower())
